@@ -27,7 +27,7 @@ depend on the written order is what the correspondence checks (generators emit s
 arbitrary order). -/
 
 def atomKey : Atom → List Nat
-  | .int i => [0, if i < 0 then 0 else 1, if i < 0 then (2 ^ 64 - i.natAbs) else i.natAbs]
+  | .int i => [0, if i < 0 then 0 else 1, i.natAbs]   -- injective; the order need not be numeric
   | .str s => 1 :: s.map (·.toNat)
   | .date d => [2, d]
   | .bytes b => 3 :: b.map (·.toNat)
